@@ -1,4 +1,4 @@
-\* become / unbecome (C17): set-up = 2 RUNNING modules in a started loop; handler stack changed from outside and from inside handlers, deliveries, stash replay, stop/start
+\* stashed events keep their content (C16): a message received through a subscription carries that subscription's userdata; the same pattern is subscribed again with another userdata pointer between stash and unstash: the stashed event shows the userdata it was delivered with, messages delivered later the new one
 CONSTANTS
   Mods = {"A", "B"}
   Order <- Order2
@@ -7,17 +7,17 @@ CONSTANTS
   Flags <- Flags_none
   CtxPersist = TRUE
   Topics = {"t1"}
-  Pats = {}
-  MaxPay = 1
+  Pats = {"t1"}
+  MaxPay = 2
   Cap = 2
   MaxNest = 1
-  Ops = {"CtxDeregister", "DropRef", "Dispatch", "CtxQuit", "ModStop", "ModStart", "ModPause", "ModResume", "Tell", "Become", "Unbecome", "Unstash"}
-  CbOps = {"Become", "Unbecome", "Stash", "ModStop"}
+  Ops = {"CtxDeregister", "DropRef", "Dispatch", "CtxQuit", "Publish", "Subscribe", "Unstash"}
+  CbOps = {"Stash", "Unstash"}
   EvalVals = {TRUE}
   Prios = {"N"}
   BatchSizes = {}
-  UnstashNs = {1}
-  HandlerIds = {1, 2}
+  UnstashNs = {1, 2, 9}
+  HandlerIds = {}
   Kinds = {}
   Keys = {1}
   SrcOpts = {}
@@ -30,7 +30,7 @@ CONSTANTS
   SubTargets = {"A"}
   AutoVals = {TRUE, FALSE}
   SubOneshot = {FALSE}
-  UdVals = {0}
+  UdVals = {0, 1}
   Senders = {"B"}
   QuitCodes = {1}
   ForeignOps = {}
